@@ -384,10 +384,13 @@ class KMIPProxy(object):
         batch_item = response_message.batch_items[0]
 
         if batch_item.result_status.value != enums.ResultStatus.SUCCESS:
+            message = None
+            if batch_item.result_message is not None:
+                message = batch_item.result_message.value
             raise exceptions.OperationFailure(
                 batch_item.result_status.value,
                 batch_item.result_reason.value,
-                batch_item.result_message.value
+                message
             )
 
         if batch_item.operation.value != operation:
